@@ -7,6 +7,11 @@ _NOTE = ("Trusted: Coq 8.16.1 kernel + vm_compute; the Go harness (generators, p
          "differential evaluation on generated inputs, not by proof; ")
 
 TEXT = {
+    "C19": {
+        "level": "Walk, Transform, path steps, path-indexed marks, UnknownAsNull and PathSet are modelled in Gallina (PathSet as the generic bucket algorithm proved in C03). Theorems: path hash coherence for all paths, path sets over known keys are mathematical sets (membership, no duplicates, exactly the added paths), path composition, walk reports the root first and stops at null/unknown. Every generated value's full walk listing, path applications (valid and invalid), transforms, mark round trips and path-set histories are compared with the implementation and checked against independent enumerations.",
+        "note": _NOTE + "enumeration / path-back / transform laws are oracle + correspondence, not yet theorems (partial).",
+        "technique": "Coq proof (path-set refinement via the generic set algorithm, path algebra) + model/implementation correspondence of walk listings, path application and transforms by vm_compute",
+    },
     "C10": {
         "level": "Function.Call / returnTypeForValues are modelled with callbacks as arbitrary Gallina functions (succeed, fail, panic) and an explicit callback trace. Theorems for ALL specifications and ALL argument lists: the implementation runs only after the type callback accepted the same arguments and only with arguments meeting the declared contract (conformance, null, unknown, dynamic, marks at any depth); the only possible traces; an argument error names an offending argument; otherwise the call short-circuits to the marked unknown of the checked type; no Go panic escapes Call. Generated specs with spy callbacks are run on the implementation and traces compared with the model.",
         "note": _NOTE + "Go defer/recover ordering is modelled as coded (after two fix: commits).",
